@@ -180,7 +180,7 @@ class DavSession:
         self._fault_fired = False
         return self.world.request(method, path, hdrs, body)
 
-    def put(self, c, n, data, ct=None, im=None, inm=None, valid=None, re=False, fault=0):
+    def put(self, c, n, data, ct=None, im=None, inm=None, valid=None, re=False, fault=0, chunked=False):
         ct = ct or gamma.content_type_for(n)
         kind = gamma.kind_for_ct(ct)
         b = self.body_id(data, kind, valid)
@@ -193,6 +193,7 @@ class DavSession:
         if inmh is not None:
             hdrs.append(("If-None-Match", inmh))
         path = self.slots[c] + "/" + n
+        self.world.chunked_next = bool(chunked)     # (aiohttp front end: Transfer-Encoding: chunked)
         resp = self._request("PUT", path, hdrs, data, fault)
         ev = {"op": "Put", "c": c, "n": n, "b": b, "im": imr, "inm": inmr, "re": bool(re),
               "fault": fault if self._fault_fired else 0}
